@@ -110,6 +110,16 @@ func (e *SeqEngine) run(seed uint64, replay *Trace, st *Stats) *Outcome {
 		sim.Start(nil, tr.Config)
 	}
 	out := &Outcome{Trace: tr}
+	if ka, ok := sim.(interface {
+		SetKnown(map[string]bool, func(Violation))
+	}); ok {
+		// stateless checks may record a listed known finding and carry on
+		ka.SetKnown(e.Known, func(v Violation) {
+			if len(out.Known) < 8 {
+				out.Known = append(out.Known, v)
+			}
+		})
+	}
 	sig := NewHash()
 	for _, k := range SortedKeys(tr.Config) {
 		sig = sig.Str(k).Int(tr.Config[k])
